@@ -33,7 +33,7 @@ def design(ctx):
 def _long(args):
     seed, nticks, start = args[:3]
     tick_us = args[3] if len(args) > 3 else W.TICK_US
-    w = W.ConnWorld(start_seq=start, tick_us=tick_us)
+    w = W.ConnWorld(start_seq=start, tick_us=tick_us, keepalive=args[4] if len(args) > 4 else None)
     try:
         pol = W.RandomPolicy(seed, p_send=0.0, p_loss=0.05, p_dup=0.02, p_replay=0.0, maxdelay=4)
         import random
@@ -61,6 +61,8 @@ def long_histories(ctx):
     jobs = [(ctx.seed * 100 + i, nticks, [65000, None, 64000, 30000][i % 4]) for i in range(n)]
     # the application polls four times faster than the cap allows: the cap itself has to space the emissions (shorter histories)
     jobs += [(ctx.seed * 100 + 50 + i, 12000 if ctx.quick else 60000, [None, 65300][i % 2], 4100) for i in range(2)]
+    # ... and with a keep-alive interval below the send interval (0: "always due" - unusual but settable): the cap must hold whatever is due
+    jobs += [(ctx.seed * 100 + 60, 6000 if ctx.quick else 30000, 65400, 4100, 0.0)]
     n = len(jobs)
     with ProcessPoolExecutor(min(n, 8)) as ex:
         res = list(ex.map(_long, jobs))
